@@ -1,5 +1,6 @@
 import Olla.Driver.Util
 import Olla.Model.Routing
+import Olla.Model.Registry
 import Olla.Spec.C09
 
 namespace Olla.Driver.C09
@@ -17,6 +18,25 @@ def parseObs (impl : Json) : Obs :=
 
 def parseListings (j : Json) : List (List Mdl) :=
   (jarr j).map (fun l => (jarr l).map (fun m => { name := jstr (jget m "name"), digest := jstr (jget m "digest") }))
+
+/-- the C10 registry model's answer to `GetEndpointsForModel` after the listings were registered one after
+    the other (each unification waited for), as the harness does -/
+def registryLookup (listings : List (List Mdl)) (model : String) : List Nat :=
+  let u := (List.range listings.length).foldl (fun (u : Olla.Model.Registry.Unified) e =>
+    match listings[e]? with
+    | none => u
+    | some l =>
+      if l.isEmpty then u else
+      let ms : List (Option Olla.Model.Registry.Model) := l.map (fun m => some { name := m.name, digest := m.digest })
+      let (u', ok) := u.registerModels Olla.Model.Registry.active e ms
+      if ok then u'.runTask Olla.Model.Registry.active (u'.pending.length - 1) else u') Olla.Model.Registry.Unified.empty
+  u.endpointsFor model
+
+def sortNat (l : List Nat) : List Nat := l.foldr (fun x acc =>
+  let rec ins : List Nat → List Nat
+    | [] => [x]
+    | y :: ys => if x ≤ y then x :: y :: ys else y :: ins ys
+  ins acc) []
 
 def ostr (j : Json) : Option String := match j with | .str s => some s | _ => none
 
@@ -82,7 +102,7 @@ def handle (j : Json) : IO Unit := do
     -- the strategy composed with the registry's own lookup must be the decision table on that lookup
     let m := route active typ fb rom (.ok healthy) healthy lookup
     let mo := Obs.ofRouted m
-    let agree := o == mo && jbool (jget impl "err") == m.err
+    let agree := o == mo && jbool (jget impl "err") == m.err && sortNat (registryLookup listings model) == sortNat lookup
     let bracket := lo.all (fun e => lookup.contains e) && lookup.all (fun e => up.contains e)
     let v := if !bracket then some "lookup-outside-listings" else routeViolation typ fb rom (.ok healthy) healthy lookup o
     let branch := "reg." ++ (if lo.isEmpty && !up.isEmpty then "alias-or-case" else if up.isEmpty then "unknown" else "native") ++ "/" ++ mo.action
